@@ -735,16 +735,27 @@ def rule_deflate(ck, consts):
                   construct="zlib object persistent=%s -> %s" % (persistent, sorted(got)))
     for cls, attr, mk in (("_PerMessageDeflateCompressor", "self._compressor", "self._create_compressor"), ("_PerMessageDeflateDecompressor", "self._decompressor", "self._create_decompressor")):
         init = ck.func(W, cls + ".__init__")
-        facts = must_facts(init.cfg)
-        n_st = 0
-        for n in init.cfg.stmt_nodes(lambda n: n.kind == "stmt" and isinstance(n.ast, (ast.Assign, ast.AnnAssign)) and attr in q.assigned_paths(n.ast)):
-            n_st += 1
-            v = n.ast.value
-            pers = ("persistent", True) in facts[n.id]
-            nonp = ("persistent", False) in facts[n.id]
-            ok = (pers and q.is_call(v, mk)) or (nonp and isinstance(v, ast.Constant) and v.value is None)
-            ck.ob(R, init, n.ast, ok, "%s.__init__: %s is a live object iff `persistent` (context takeover), None otherwise" % (cls, attr))
-        ck.floor(R, n_st, 2, "assignments of %s in %s.__init__" % (attr, cls))
+        if "persistent" not in init.params():
+            raise AnalysisError("%s.__init__ has no `persistent` parameter" % cls)
+
+        def ut(n, u, env, attr=attr, mk=mk):
+            if n.kind == "stmt" and isinstance(n.ast, (ast.Assign, ast.AnnAssign)) and n.ast.value is not None and attr in q.assigned_paths(n.ast):
+                v = n.ast.value
+                if q.is_call(v, mk):
+                    return "live"
+                if isinstance(v, ast.Constant) and v.value is None:
+                    return "none"
+                return "?"
+            return u
+
+        for pers in (True, False):
+            seen = X.explore_consts(init.cfg, consts, init_env={"persistent": pers}, assume={"max_wbits is None": False}, uinit="unset", utransfer=ut, follow_exc=False)
+            finals = {u for _e, u in X.states_at(seen, init.cfg.exit)}
+            if "?" in finals or not finals:
+                raise AnalysisError("%s.__init__: the value stored in %s is not in a recognised form (%s)" % (cls, attr, sorted(finals)))
+            want = {"live"} if pers else {"none"}
+            ck.ob(R, init, init.node, finals == want, "%s(persistent=%s) leaves %s %s (got %s)" % (cls, pers, attr, "a live zlib object (context takeover)" if pers else "None (fresh object per message)", sorted(finals)),
+                  construct="%s init persistent=%s -> %s" % (cls, pers, sorted(finals)))
     # side selection
     crt = ck.func(W, P13 + "._create_compressors")
     side_p = [p for p in crt.params() if p != "self"][0]
